@@ -19,6 +19,21 @@ All shared state sits behind ONE mutex, so every step below is atomic:
 Conditions and tasks are natural numbers; a task awaits one operation at a time. A condition may become false
 again (another reader consumed the data, credit was used up).
 
+Three places where the wake-up is NOT made by the driver applying a protocol event — each is modelled with the
+behaviour READ FROM THE SOURCE (a 0/1 constant of `Gen/C18.lean`), so that the theorems over all interleavings
+only go through for a source that wakes there:
+* `appSet c`: an APPLICATION call makes a condition hold: `SendStream::reset` completes the `stopped()` futures of
+  its stream (the peer can no longer stop it or read it to completion; quinn-proto reports nothing when the
+  RESET_STREAM is acknowledged). `Gen.c18ResetNotifiesStopped`: `reset` sets the flag the `stopped` futures test
+  under the lock AND notifies-and-removes the stream's `stopped` entry;
+* endpoint scope (`EpEv`, conditions `incoming` = `Endpoint::accept`, `idle` = `Endpoint::wait_idle`): the
+  endpoint driver future ends (fatal socket error) and `Drop for EndpointDriver` sets `driver_lost` and clears the
+  connection table — from then on every endpoint-level poll completes — and notifies the Notify objects
+  `Gen.c18EndpointDriverDropNotifies{Incoming,Idle}`;
+* `dropRejected c`: a handle of a REJECTED 0-RTT stream is dropped; its stream id (= waker-map slot `c`) is in use
+  again by a stream opened after the handshake, whose task may be registered there. `Gen.c18RejectedDropKeepsWaker`:
+  `Drop for SendStream` / `Drop for RecvStream` test the rejection BEFORE touching `blocked_writers/readers`.
+
 Tie to the code: the shape anchors of `Gen/C18.lean` (regenerated from the source text on every run) and the
 `asyncsim` harness; there is no line-by-line differential execution of this model.
 -/
@@ -35,7 +50,8 @@ def anchors : List Nat :=
    Gen.c18ConfirmedRegistersUnderLock, Gen.c18EndpointAcceptRegistersUnderLock, Gen.c18WaitIdleRegistersUnderLock,
    Gen.c18WakeHelpersRemove, Gen.c18ForwardAppEventsWakes, Gen.c18TerminateWakesAll,
    Gen.c18CloseTerminatesAndWakesDriver, Gen.c18DriverRegistersItself, Gen.c18EndpointDriverWakes,
-   Gen.c18RecvDropRemovesRegistration, Gen.c18SendDropRemovesRegistration, Gen.c18LastHandleCloses]
+   Gen.c18RecvDropRemovesRegistration, Gen.c18SendDropRemovesRegistration, Gen.c18LastHandleCloses,
+   Gen.c18ConnDriverIoErrorTerminates, Gen.c18RejectedHandleOpsReport]
 
 structure St where
   /-- which conditions hold (data readable, credit available, stream stopped, …) -/
@@ -62,6 +78,10 @@ inductive Ev where
   | dropHandle (t : Task) (c : Cond)
   /-- `State::terminate` -/
   | terminate
+  /-- an application call (`SendStream::reset`) makes condition `c` (`stopped` of that stream) hold -/
+  | appSet (c : Cond)
+  /-- the handle of a rejected 0-RTT stream whose id is waker-map slot `c` is dropped -/
+  | dropRejected (c : Cond)
 
 def upd {α : Type} (f : Nat → α) (k : Nat) (v : α) : Nat → α := fun x => if x = k then v else f x
 
@@ -113,17 +133,71 @@ def St.terminate (s : St) : St :=
   { s with dead := true, woken := fun t => s.woken t || s.regs.any (fun r => r.2 == t), regs := [],
            left := fun _ _ => false }
 
+/-- `SendStream::reset`: the condition holds from now on; the waiters are woken and removed in the same locked
+    step iff the source does so -/
+def St.appSet (s : St) (c : Cond) : St :=
+  if Gen.c18ResetNotifiesStopped = 1 then s.drive [c] [] else { s with holds := upd s.holds c true }
+
+/-- `Drop` of a rejected 0-RTT stream handle: leaves the slot alone iff the source tests the rejection first;
+    otherwise it removes whatever waker is registered for that stream id, without waking it -/
+def St.dropRejected (s : St) (c : Cond) : St :=
+  if Gen.c18RejectedDropKeepsWaker = 1 then s else { s with regs := s.regs.filter (fun r => r.1 != c) }
+
 def step (slot : Cond → Bool) (s : St) : Ev → St
   | .poll t c consume => (s.poll slot t c consume).1
   | .drive up down => s.drive up down
   | .dropFut t => s.dropFut slot t
   | .dropHandle t c => s.dropHandle t c
   | .terminate => s.terminate
+  | .appSet c => s.appSet c
+  | .dropRejected c => s.dropRejected c
 
 def run (slot : Cond → Bool) (s : St) : List Ev → St
   | [] => s
   | e :: es => run slot (step slot s e) es
 
 def init : St := {}
+
+/-! ### endpoint scope: `Endpoint::accept` / `Endpoint::wait_idle` and the loss of the endpoint driver -/
+
+inductive EpCond where
+  /-- `endpoint::Shared::incoming` (`Accept::poll`) -/
+  | incoming
+  /-- `endpoint::Shared::idle` (`Endpoint::wait_idle`) -/
+  | idle
+  deriving DecidableEq, Repr
+
+def EpCond.code : EpCond → Cond
+  | .incoming => 0
+  | .idle => 1
+
+/-- the Notify objects `Drop for EndpointDriver` notifies, as read from the source -/
+def epDriverDropNotifies : List Cond :=
+  (if Gen.c18EndpointDriverDropNotifiesIncoming = 1 then [EpCond.incoming.code] else []) ++
+  (if Gen.c18EndpointDriverDropNotifiesIdle = 1 then [EpCond.idle.code] else [])
+
+/-- the driver is gone: `driver_lost := true` and `senders.clear()` make every later endpoint-level poll complete
+    (`dead`); only the waiters of the notified objects are woken (and removed) -/
+def St.lose (s : St) (ns : List Cond) : St := { s.wakeConds ns with dead := true }
+
+inductive EpEv where
+  | poll (t : Task) (c : EpCond) (consume : Bool)
+  /-- the endpoint driver applies events: a connection attempt arrived / the last connection drained / … -/
+  | drive (up down : List EpCond)
+  | dropFut (t : Task)
+  /-- the endpoint driver future ends with an I/O error and is dropped -/
+  | driverLost
+
+def noSlot : Cond → Bool := fun _ => false
+
+def epStep (s : St) : EpEv → St
+  | .poll t c consume => (s.poll noSlot t c.code consume).1
+  | .drive up down => s.drive (up.map EpCond.code) (down.map EpCond.code)
+  | .dropFut t => s.dropFut noSlot t
+  | .driverLost => s.lose epDriverDropNotifies
+
+def epRun (s : St) : List EpEv → St
+  | [] => s
+  | e :: es => epRun (epStep s e) es
 
 end QM.Wake
